@@ -43,7 +43,10 @@ structure Inv (s : State) : Prop where
   sub_le : ∀ l, l < s.next → s.subAt l ≤ s.emitted.length
   once : ∀ l, l < s.next → s.isCb l = false →
     (s.got l).length + (if l ∈ s.rel then 1 else 0) = (s.expect l).length
-  cb : ∀ c, c < s.next → s.isCb c = true → CbSpec s c
+  cb : ∀ c, c < s.next → s.isCb c = true → s.conn c = true → CbSpec s c
+  cb0 : ∀ c, c < s.next → s.isCb c = true → s.conn c = false → s.got c = [Out.free]
+  chain_conn : ∀ l, l ∈ s.chain → s.conn l = true
+  rel_conn : ∀ l, l ∈ s.rel → s.conn l = true
 
 theorem inv_init : Inv init := by
   constructor <;> simp [init, deref]
@@ -56,44 +59,69 @@ macro "inv_old" h:ident : tactic => `(tactic| first
   | exact Inv.rel_lt $h | exact Inv.gated_lt $h | exact Inv.disj_cr $h | exact Inv.disj_cg $h | exact Inv.disj_rg $h
   | exact Inv.rel_coro $h | exact Inv.gated_coro $h | exact Inv.gated_impure $h | exact Inv.pure_coro $h
   | exact Inv.dead_chain $h | exact Inv.dead_cur $h | exact Inv.rel_val $h | exact Inv.sub_le $h | exact Inv.once $h
-  | exact Inv.cb $h)
+  | exact Inv.cb $h | exact Inv.cb0 $h | exact Inv.chain_conn $h | exact Inv.rel_conn $h)
+
+theorem inv_cancelNow {s : State} (h : Inv s) {l : Nat} (hr : l ∉ s.rel) (hk : s.isCb l = false) :
+    Inv (cancelNow s l) := by
+  unfold cancelNow
+  constructor <;> (try dsimp only) <;> (try inv_old h)
+  case once =>
+    intro l' hl' hk'
+    have := h.once l' hl' hk'
+    by_cases e : l' = l
+    · subst e; simp [hr] at this ⊢; omega
+    · simp [upd_other _ _ e]; exact this
+  case cb =>
+    intro c hc' hk' hcn'
+    have e : c ≠ l := by intro e; subst e; simp [hk] at hk'
+    have := h.cb c hc' hk' hcn'
+    simpa [CbSpec, upd_other _ _ e] using this
+  case cb0 =>
+    intro c hc' hk' hcn'
+    have e : c ≠ l := by intro e; subst e; simp [hk] at hk'
+    rw [upd_other _ _ e]; exact h.cb0 c hc' hk' hcn'
 
 theorem inv_reawait {s : State} (h : Inv s) {l : Nat} (hl : l < s.next) (hc : l ∉ s.chain) (hr : l ∉ s.rel)
-    (hg : l ∉ s.gated) (hk : s.isCb l = false) : Inv (reawait s l) := by
+    (hg : l ∉ s.gated) (hk : s.isCb l = false) (hcn : s.conn l = true) : Inv (reawait s l) := by
   unfold reawait
   by_cases h0 : s.handles = 0
   · rw [if_pos h0]
-    constructor <;> (try dsimp only) <;> (try inv_old h)
-    · intro l' hl' hk'
-      have := h.once l' hl' hk'
-      by_cases e : l' = l
-      · subst e; simp [hr] at this ⊢; omega
-      · simp [upd_other _ _ e]; exact this
-    · intro c hc' hk'
-      have e : c ≠ l := by intro e; subst e; simp [hk] at hk'
-      have := h.cb c hc' hk'
-      simpa [CbSpec, upd_other _ _ e] using this
+    exact inv_cancelNow h hr hk
   · rw [if_neg h0]
     constructor <;> (try dsimp only) <;> (try inv_old h)
-    · exact List.nodup_cons.mpr ⟨hc, h.chain_nodup⟩
-    · intro l' hl'; rcases List.mem_cons.mp hl' with e | e
+    case chain_nodup => exact List.nodup_cons.mpr ⟨hc, h.chain_nodup⟩
+    case chain_lt =>
+      intro l' hl'; rcases List.mem_cons.mp hl' with e | e
       · subst e; exact hl
       · exact h.chain_lt _ e
-    · intro l' hl'; rcases List.mem_cons.mp hl' with e | e
+    case disj_cr =>
+      intro l' hl'; rcases List.mem_cons.mp hl' with e | e
       · subst e; exact hr
       · exact h.disj_cr _ e
-    · intro l' hl'; rcases List.mem_cons.mp hl' with e | e
+    case disj_cg =>
+      intro l' hl'; rcases List.mem_cons.mp hl' with e | e
       · subst e; exact hg
       · exact h.disj_cg _ e
-    · intro hh; exact absurd hh h0
-    · intro c hc' hk'
+    case dead_chain => intro hh; exact absurd hh h0
+    case cb =>
+      intro c hc' hk' hcn'
       have e : c ≠ l := by intro e; subst e; simp [hk] at hk'
-      have := h.cb c hc' hk'
+      have := h.cb c hc' hk' hcn'
       simpa [CbSpec, e] using this
+    case chain_conn =>
+      intro l' hl'; rcases List.mem_cons.mp hl' with e | e
+      · subst e; exact hcn
+      · exact h.chain_conn _ e
 
+theorem inv_await {s : State} (h : Inv s) {l : Nat} (hl : l < s.next) (hc : l ∉ s.chain) (hr : l ∉ s.rel)
+    (hg : l ∉ s.gated) (hk : s.isCb l = false) : Inv (await s l) := by
+  unfold await
+  by_cases hcn : s.conn l = true
+  · rw [if_pos hcn]; exact inv_reawait h hl hc hr hg hk hcn
+  · rw [if_neg hcn]; exact inv_cancelNow h hr hk
 
-theorem inv_fresh_coro {s : State} (h : Inv s) (sc : List Act) (n : Nat) (pr : Bool) :
-    Inv (fresh s false sc n pr) := by
+theorem inv_fresh_coro {s : State} (h : Inv s) (sc : List Act) (n : Nat) (pr : Bool) (cn : Bool) :
+    Inv (fresh s false sc n pr cn) := by
   unfold fresh
   constructor <;> (try dsimp only) <;> (try inv_old h)
   case chain_lt => intro l hl; have := h.chain_lt l hl; omega
@@ -131,11 +159,24 @@ theorem inv_fresh_coro {s : State} (h : Inv s) (sc : List Act) (n : Nat) (pr : B
       rw [upd_other _ _ e, upd_other _ _ e]
       exact h.once l (by omega) hk
   case cb =>
-    intro c hc hk
+    intro c hc hk hcn
     have e : c ≠ s.next := by intro e; subst e; simp at hk
-    rw [upd_other _ _ e] at hk
-    have := h.cb c (by omega) hk
+    rw [upd_other _ _ e] at hk hcn
+    have := h.cb c (by omega) hk hcn
     simpa [CbSpec, upd_other _ _ e] using this
+  case cb0 =>
+    intro c hc hk hcn
+    have e : c ≠ s.next := by intro e; subst e; simp at hk
+    rw [upd_other _ _ e] at hk hcn
+    rw [upd_other _ _ e]; exact h.cb0 c (by omega) hk hcn
+  case chain_conn =>
+    intro l hl
+    have := h.chain_lt l hl
+    rw [upd_other _ _ (by omega)]; exact h.chain_conn l hl
+  case rel_conn =>
+    intro l hl
+    have := h.rel_lt l hl
+    rw [upd_other _ _ (by omega)]; exact h.rel_conn l hl
 
 theorem fresh_next_notin {s : State} (h : Inv s) :
     s.next ∉ s.chain ∧ s.next ∉ s.rel ∧ s.next ∉ s.gated :=
@@ -145,27 +186,13 @@ theorem fresh_next_notin {s : State} (h : Inv s) :
 theorem inv_listen {s : State} (h : Inv s) (sc : List Act) : Inv (stepListen s sc).1 := by
   unfold stepListen
   obtain ⟨h1, h2, h3⟩ := fresh_next_notin h
-  exact inv_reawait (inv_fresh_coro h sc 0 true) (by simp [fresh]) (by simpa [fresh] using h1)
-    (by simpa [fresh] using h2) (by simpa [fresh] using h3) (by simp [fresh])
+  exact inv_reawait (inv_fresh_coro h sc 0 true true) (by simp [fresh]) (by simpa [fresh] using h1)
+    (by simpa [fresh] using h2) (by simpa [fresh] using h3) (by simp [fresh]) (by simp [fresh])
 
 theorem inv_listen0 {s : State} (h : Inv s) (sc : List Act) : Inv (stepListen0 s sc).1 := by
   unfold stepListen0
-  have hf := inv_fresh_coro h sc 0 false
-  obtain ⟨h1, h2, h3⟩ := fresh_next_notin h
-  constructor <;> (try dsimp only) <;> (try inv_old hf)
-  case once =>
-    intro l hl hk
-    by_cases e : l = s.next
-    · subst e
-      have : s.next ∉ (fresh s false sc 0 false).rel := by simpa [fresh] using h2
-      simp [this]
-    · rw [upd_other _ _ e, upd_other _ _ e]
-      exact hf.once l hl hk
-  case cb =>
-    intro c hc hk
-    have e : c ≠ s.next := by intro e; subst e; simp [fresh] at hk
-    have := hf.cb c hc hk
-    simpa [CbSpec, upd_other _ _ e] using this
+  obtain ⟨_, h2, _⟩ := fresh_next_notin h
+  exact inv_cancelNow (inv_fresh_coro h sc 0 false false) (by simpa [fresh] using h2) (by simp [fresh])
 
 theorem inv_connect {s : State} (h : Inv s) (n : Nat) : Inv (stepConnect s n).1 := by
   unfold stepConnect
@@ -221,13 +248,84 @@ theorem inv_connect {s : State} (h : Inv s) (n : Nat) : Inv (stepConnect s n).1 
         rw [upd_other _ _ e, upd_other _ _ e]
         exact h.once l (by omega) hk
     case cb =>
-      intro c hc hk
+      intro c hc hk hcn
       by_cases e : c = s.next
       · subst e
         simp [CbSpec, h0]
-      · rw [upd_other _ _ e] at hk
-        have := h.cb c (by omega) hk
+      · rw [upd_other _ _ e] at hk hcn
+        have := h.cb c (by omega) hk hcn
         simpa [CbSpec, upd_other _ _ e, e] using this
+    case cb0 =>
+      intro c hc hk hcn
+      by_cases e : c = s.next
+      · subst e; simp at hcn
+      · rw [upd_other _ _ e] at hk hcn
+        rw [upd_other _ _ e]; exact h.cb0 c (by omega) hk hcn
+    case chain_conn =>
+      intro l hl; rcases List.mem_cons.mp hl with e | e
+      · subst e; simp
+      · have := h.chain_lt l e
+        rw [upd_other _ _ (by omega)]; exact h.chain_conn l e
+    case rel_conn =>
+      intro l hl
+      have := h.rel_lt l hl
+      rw [upd_other _ _ (by omega)]; exact h.rel_conn l hl
+
+theorem inv_connect0 {s : State} (h : Inv s) (n : Nat) : Inv (stepConnect0 s n).1 := by
+  unfold stepConnect0 fresh
+  constructor <;> (try dsimp only) <;> (try inv_old h)
+  case chain_lt => intro l hl; have := h.chain_lt l hl; omega
+  case rel_lt => intro l hl; have := h.rel_lt l hl; omega
+  case gated_lt => intro l hl; have := h.gated_lt l hl; omega
+  case rel_coro =>
+    intro l hl
+    have := h.rel_lt l hl
+    rw [upd_other _ _ (by omega)]; exact h.rel_coro l hl
+  case gated_coro =>
+    intro l hl
+    have := h.gated_lt l hl
+    rw [upd_other _ _ (by omega)]; exact h.gated_coro l hl
+  case gated_impure =>
+    intro l hl
+    have := h.gated_lt l hl
+    rw [upd_other _ _ (by omega)]; exact h.gated_impure l hl
+  case pure_coro =>
+    intro l hp
+    by_cases e : l = s.next
+    · subst e; simp at hp
+    · rw [upd_other _ _ e] at hp ⊢; exact h.pure_coro l hp
+  case sub_le =>
+    intro l hl
+    by_cases e : l = s.next
+    · subst e; simp
+    · rw [upd_other _ _ e]; exact h.sub_le l (by omega)
+  case once =>
+    intro l hl hk
+    by_cases e : l = s.next
+    · subst e; simp at hk
+    · rw [upd_other _ _ e] at hk
+      rw [upd_other _ _ e, upd_other _ _ e, upd_other _ _ e]
+      exact h.once l (by omega) hk
+  case cb =>
+    intro c hc hk hcn
+    have e : c ≠ s.next := by intro e; subst e; simp at hcn
+    rw [upd_other _ _ e] at hk hcn
+    have := h.cb c (by omega) hk hcn
+    simpa [CbSpec, upd_other _ _ e] using this
+  case cb0 =>
+    intro c hc hk hcn
+    by_cases e : c = s.next
+    · subst e; simp
+    · rw [upd_other _ _ e] at hk hcn
+      rw [upd_other _ _ e, upd_other _ _ e]; exact h.cb0 c (by omega) hk hcn
+  case chain_conn =>
+    intro l hl
+    have := h.chain_lt l hl
+    rw [upd_other _ _ (by omega)]; exact h.chain_conn l hl
+  case rel_conn =>
+    intro l hl
+    have := h.rel_lt l hl
+    rw [upd_other _ _ (by omega)]; exact h.rel_conn l hl
 
 theorem inv_add {s : State} (h : Inv s) : Inv (stepAdd s).1 := by
   unfold stepAdd
@@ -239,8 +337,8 @@ theorem inv_add {s : State} (h : Inv s) : Inv (stepAdd s).1 := by
     case dead_cur => intro hh; omega
     case rel_val => intro l hl _; exact h.rel_val l hl h0
     case cb =>
-      intro c hc hk
-      have := h.cb c hc hk
+      intro c hc hk hcn
+      have := h.cb c hc hk hcn
       unfold CbSpec at this ⊢
       dsimp only
       refine ⟨fun hm => ?_, fun hm => ?_⟩
@@ -254,8 +352,8 @@ theorem inv_afterValue {s : State} (h : Inv s) {l : Nat} (hl : l < s.next) (hc :
     (hg : l ∉ s.gated) (hk : s.isCb l = false) : Inv (afterValue s l) := by
   unfold afterValue
   split
-  · exact inv_reawait h hl hc hr hg hk
-  · exact inv_reawait (inv_script h _) hl hc hr hg hk
+  · exact inv_await h hl hc hr hg hk
+  · exact inv_await (inv_script h _) hl hc hr hg hk
   · -- gate
     constructor <;> (try dsimp only) <;> (try inv_old h)
     case gated_nodup => exact List.nodup_cons.mpr ⟨hg, h.gated_nodup⟩
@@ -322,10 +420,15 @@ theorem inv_resumed {s : State} (h : Inv s) {l : Nat} (hl : l ∈ s.rel) (o : Ou
     · have hi : l' ∈ s.rel.erase l ↔ l' ∈ s.rel := by simp [hme, e]
       rw [upd_other _ _ e]; simp only [hi]; exact this
   case cb =>
-    intro c hc hk'
+    intro c hc hk' hcn'
     have e : c ≠ l := by intro e; subst e; have := h.rel_coro _ hl; simp [this] at hk'
-    have := h.cb c hc hk'
+    have := h.cb c hc hk' hcn'
     simpa [CbSpec, upd_other _ _ e] using this
+  case cb0 =>
+    intro c hc hk' hcn'
+    have e : c ≠ l := by intro e; subst e; have := h.rel_coro _ hl; simp [this] at hk'
+    rw [upd_other _ _ e]; exact h.cb0 c hc hk' hcn'
+  case rel_conn => intro l' hl'; exact h.rel_conn _ ((hme l').mp hl').2
 
 theorem inv_resume {s : State} (h : Inv s) (l : Nat) : Inv (stepResume s l).1 := by
   unfold stepResume
@@ -351,8 +454,34 @@ theorem inv_wake {s : State} (h : Inv s) (l : Nat) : Inv (stepWake s l).1 := by
       case disj_rg => intro l' hl' hm; exact h.disj_rg _ hl' ((hme l').mp hm).2
       case gated_coro => intro l' hl'; exact h.gated_coro _ ((hme l').mp hl').2
       case gated_impure => intro l' hl'; exact h.gated_impure _ ((hme l').mp hl').2
-    exact inv_reawait h1 (h.gated_lt _ hl) (fun hc => h.disj_cg _ hc hl) (fun hr => h.disj_rg _ hr hl)
+    exact inv_await h1 (h.gated_lt _ hl) (fun hc => h.disj_cg _ hc hl) (fun hr => h.disj_rg _ hr hl)
       (fun hh => ((hme l).mp hh).1 rfl) (h.gated_coro _ hl)
+  · rw [if_neg hl]; exact h
+
+theorem inv_assign {s : State} (h : Inv s) (l : Nat) (b : Bool) : Inv (stepAssign s l b).1 := by
+  unfold stepAssign
+  by_cases hl : l ∈ s.gated
+  · rw [if_pos hl]
+    have hk := h.gated_coro _ hl
+    constructor <;> (try dsimp only) <;> (try inv_old h)
+    case cb =>
+      intro c hc hk' hcn'
+      have e : c ≠ l := by intro e; subst e; simp [hk] at hk'
+      rw [upd_other _ _ e] at hcn'
+      exact h.cb c hc hk' hcn'
+    case cb0 =>
+      intro c hc hk' hcn'
+      have e : c ≠ l := by intro e; subst e; simp [hk] at hk'
+      rw [upd_other _ _ e] at hcn'
+      exact h.cb0 c hc hk' hcn'
+    case chain_conn =>
+      intro l' hl'
+      have e : l' ≠ l := by intro e; subst e; exact h.disj_cg _ hl' hl
+      rw [upd_other _ _ e]; exact h.chain_conn _ hl'
+    case rel_conn =>
+      intro l' hl'
+      have e : l' ≠ l := by intro e; subst e; exact h.disj_rg _ hl' hl
+      rw [upd_other _ _ e]; exact h.rel_conn _ hl'
   · rw [if_neg hl]; exact h
 
 theorem nodup_rel_coros {s : State} (h : Inv s) : (s.rel ++ corosOf s).Nodup := by
@@ -417,9 +546,20 @@ theorem inv_drop {s : State} (h : Inv s) : Inv (stepDrop s).1 := by
         have hn : l ∉ cbsOf s := fun hh => by have := (mem_cbsOf.mp hh).2; simp [hk] at this
         simp only [hn, if_false]
         exact once_release h _ l hl hk
+      case cb0 =>
+        intro c hc hk hcn
+        have hcb : c ∉ cbsOf s := fun hh => by
+          have := h.chain_conn c (mem_cbsOf.mp hh).1; rw [hcn] at this; cases this
+        simp only [hcb, if_false]
+        exact h.cb0 c hc hk hcn
+      case chain_conn => intro l hl; cases hl
+      case rel_conn =>
+        intro l hl; rcases mem_rel_coros.mp hl with e | e
+        · exact h.rel_conn _ e
+        · exact h.chain_conn _ e.1
       case cb =>
-        intro c hc hk
-        have old := h.cb c hc hk
+        intro c hc hk hcn
+        have old := h.cb c hc hk hcn
         unfold CbSpec at old ⊢
         dsimp only
         refine ⟨fun hm => (by cases hm), fun _ => ⟨?_, Or.inl rfl⟩⟩
@@ -437,8 +577,8 @@ theorem inv_drop {s : State} (h : Inv s) : Inv (stepDrop s).1 := by
       case dead_cur => intro hh; omega
       case rel_val => intro l hl _; exact h.rel_val l hl h0
       case cb =>
-        intro c hc hk
-        have := h.cb c hc hk
+        intro c hc hk hcn
+        have := h.cb c hc hk hcn
         unfold CbSpec at this ⊢
         dsimp only
         refine ⟨fun hm => ?_, fun hm => ?_⟩
@@ -492,8 +632,8 @@ theorem inv_emit {s : State} (h : Inv s) (byRef : Bool) (v : Nat) : Inv (stepEmi
       simp only [hn, if_false]
       exact once_release h _ l hl hk
     case cb =>
-      intro c hc hk
-      have old := h.cb c hc hk
+      intro c hc hk hcn
+      have old := h.cb c hc hk hcn
       have hsub := h.sub_le c hc
       unfold CbSpec at old ⊢
       dsimp only
@@ -519,12 +659,25 @@ theorem inv_emit {s : State} (h : Inv s) (byRef : Bool) (v : Nat) : Inv (stepEmi
         refine ⟨fun hh => absurd hh.1 hm, fun _ => ⟨?_, Or.inr (by omega)⟩⟩
         rw [List.take_append_of_le_length (by simp; omega)]
         exact hg
+    case cb0 =>
+      intro c hc hk hcn
+      have hcb : c ∉ cbsOf s := fun hh => by
+        have := h.chain_conn c (mem_cbsOf.mp hh).1; rw [hcn] at this; cases this
+      simp only [hcb, if_false]
+      exact h.cb0 c hc hk hcn
+    case chain_conn => intro l hl; exact h.chain_conn _ (mem_stay.mp hl).1
+    case rel_conn =>
+      intro l hl; rcases mem_rel_coros.mp hl with e | e
+      · exact h.rel_conn _ e
+      · exact h.chain_conn _ e.1
 
 theorem inv_step {s : State} (h : Inv s) (op : Op) : Inv (step s op).1 := by
   cases op with
   | listen sc => exact inv_listen h sc
   | listen0 sc => exact inv_listen0 h sc
   | connect n => exact inv_connect h n
+  | connect0 n => exact inv_connect0 h n
+  | assign l b => exact inv_assign h l b
   | emit r v => exact inv_emit h r v
   | resume l => exact inv_resume h l
   | wake l => exact inv_wake h l
@@ -557,22 +710,36 @@ structure FInv (s : State) : Prop where
 theorem finv_init : FInv init := by
   refine ⟨⟨?_, ?_⟩, ?_⟩ <;> simp [init]
 
+theorem fex_cancelNow {s : State} (h : FEx s) {l : Nat} (hr : l ∉ s.rel) (hp : s.pure l = false) :
+    FEx (cancelNow s l) := by
+  unfold cancelNow
+  refine ⟨?_, ?_⟩ <;> dsimp only
+  · intro l' hl' hk'
+    have := h.exact l' hl' hk'
+    by_cases e : l' = l
+    · subst e; simp only [hr, if_false, List.append_nil, upd_same] at this ⊢; rw [this]
+    · simp only [upd_other _ _ e]; exact this
+  · intro l' hl' hp'
+    have e : l' ≠ l := by intro e; subst e; rw [hp] at hp'; cases hp'
+    simp only [upd_other _ _ e]; exact h.form l' hl' hp'
+
 theorem fex_reawait {s : State} (h : FEx s) {l : Nat} (hr : l ∉ s.rel) (hp : s.handles = 0 → s.pure l = false) :
     FEx (reawait s l) := by
   unfold reawait
   by_cases h0 : s.handles = 0
-  · rw [if_pos h0]
-    refine ⟨?_, ?_⟩ <;> dsimp only
-    · intro l' hl' hk'
-      have := h.exact l' hl' hk'
-      by_cases e : l' = l
-      · subst e; simp only [hr, if_false, List.append_nil, upd_same] at this ⊢; rw [this]
-      · simp only [upd_other _ _ e]; exact this
-    · intro l' hl' hp'
-      have e : l' ≠ l := by intro e; subst e; rw [hp h0] at hp'; cases hp'
-      simp only [upd_other _ _ e]; exact h.form l' hl' hp'
+  · rw [if_pos h0]; exact fex_cancelNow h hr (hp h0)
   · rw [if_neg h0]
     exact ⟨h.exact, h.form⟩
+
+theorem reawait_next (s : State) (l : Nat) : (reawait s l).next = s.next := by
+  unfold reawait; split <;> rfl
+
+theorem await_next (s : State) (l : Nat) : (await s l).next = s.next := by
+  unfold await; split
+  · exact reawait_next s l
+  · rfl
+
+theorem present_cancelNow {s : State} {l l' : Nat} (h : Present s l') : Present (cancelNow s l) l' := h
 
 theorem present_reawait_self (s : State) (l : Nat) : Present (reawait s l) l := by
   unfold reawait Present
@@ -631,9 +798,11 @@ theorem finv_listen {s : State} (hi : Inv s) (h : FInv s) (sc : List Act) : FInv
         · exact Or.inl (List.mem_cons_of_mem _ e')
         · exact Or.inr e'
 
-theorem finv_listen0 {s : State} (hi : Inv s) (h : FInv s) (sc : List Act) : FInv (stepListen0 s sc).1 := by
+/-- a new listener that is not `pure` (callback, or a coroutine on an unconnected emitter), before it does anything -/
+theorem finv_fresh_impure {s : State} (hi : Inv s) (h : FInv s) (cb : Bool) (sc : List Act) (n : Nat) (cn : Bool) :
+    FInv (fresh s cb sc n false cn) := by
   have hnr : s.next ∉ s.rel := (fresh_next_notin hi).2.1
-  unfold stepListen0 fresh
+  unfold fresh
   refine ⟨⟨?_, ?_⟩, ?_⟩ <;> dsimp only
   · intro l hl hk
     by_cases e : l = s.next
@@ -652,6 +821,28 @@ theorem finv_listen0 {s : State} (hi : Inv s) (h : FInv s) (sc : List Act) : FIn
     by_cases e : l = s.next
     · subst e; simp
     · rw [upd_other _ _ e]; exact h.present l (by omega)
+
+theorem finv_listen0 {s : State} (hi : Inv s) (h : FInv s) (sc : List Act) : FInv (stepListen0 s sc).1 := by
+  unfold stepListen0
+  have hf := finv_fresh_impure hi h false sc 0 false
+  have hnr : s.next ∉ (fresh s false sc 0 false false).rel := by simpa [fresh] using (fresh_next_notin hi).2.1
+  exact ⟨fex_cancelNow hf.ex hnr (by simp [fresh]), fun l hl => present_cancelNow (hf.present l hl)⟩
+
+theorem finv_connect0 {s : State} (hi : Inv s) (h : FInv s) (n : Nat) : FInv (stepConnect0 s n).1 := by
+  unfold stepConnect0
+  have hf := finv_fresh_impure hi h true [] n false
+  refine ⟨⟨?_, hf.ex.form⟩, hf.present⟩
+  intro l hl hk
+  have e : l ≠ s.next := by intro e; subst e; simp [fresh] at hk
+  have := hf.ex.exact l hl hk
+  dsimp only
+  rw [upd_other _ _ e]; exact this
+
+theorem finv_assign {s : State} (h : FInv s) (l : Nat) (b : Bool) : FInv (stepAssign s l b).1 := by
+  unfold stepAssign
+  split
+  · exact ⟨⟨h.ex.exact, h.ex.form⟩, h.present⟩
+  · exact h
 
 theorem finv_connect {s : State} (h : FInv s) (n : Nat) : FInv (stepConnect s n).1 := by
   unfold stepConnect
@@ -709,10 +900,13 @@ theorem finv_wake {s : State} (hi : Inv s) (h : FInv s) (l : Nat) : FInv (stepWa
     have hp := hi.gated_impure _ hl
     have hr : l ∉ s.rel := fun hr => hi.disj_rg _ hr hl
     have h1 : FEx { s with gated := s.gated.erase l } := ⟨h.ex.exact, h.ex.form⟩
-    refine ⟨fex_reawait h1 hr (fun _ => hp), ?_⟩
-    intro l' hl'
-    have hl'' : l' < s.next := by simpa [reawait] using (by unfold reawait at hl'; split at hl' <;> exact hl')
-    exact present_reawait_other (s := { s with gated := s.gated.erase l }) (h.present l' hl'')
+    unfold await
+    split
+    · refine ⟨fex_reawait h1 hr (fun _ => hp), ?_⟩
+      intro l' hl'
+      rw [reawait_next] at hl'
+      exact present_reawait_other (s := { s with gated := s.gated.erase l }) (h.present l' hl')
+    · exact ⟨fex_cancelNow h1 hr hp, fun l' hl' => present_cancelNow (s := { s with gated := s.gated.erase l }) (h.present l' hl')⟩
   · rw [if_neg hl]; exact h
 
 theorem fex_resumed {s : State} (hi : Inv s) (h : FEx s) {l : Nat} (hl : l ∈ s.rel) {o : Out} (ho : readNow s = o) :
@@ -740,11 +934,13 @@ theorem present_resumed_other {s : State} (hi : Inv s) {l l' : Nat} (e : l' ≠ 
   · exact Or.inl e'
   · exact Or.inr ((hme l').mpr ⟨e, e'⟩)
 
-theorem finv_afterValue {s : State} (h : FEx s) {l : Nat} (hr : l ∉ s.rel) (h0 : s.handles ≠ 0)
+theorem finv_afterValue {s : State} (h : FEx s) {l : Nat} (hr : l ∉ s.rel) (h0 : s.handles ≠ 0) (hcn : s.conn l = true)
     (hp : ∀ l', l' < s.next → l' ≠ l → Present s l') : FInv (afterValue s l) := by
   unfold afterValue
   split
-  · refine ⟨fex_reawait h hr (fun e => absurd e h0), ?_⟩
+  · have ha : await s l = reawait s l := by unfold await; rw [if_pos hcn]
+    rw [ha]
+    refine ⟨fex_reawait h hr (fun e => absurd e h0), ?_⟩
     intro l' hl'
     have hl'' : l' < s.next := by unfold reawait at hl'; split at hl' <;> exact hl'
     by_cases e : l' = l
@@ -752,6 +948,9 @@ theorem finv_afterValue {s : State} (h : FEx s) {l : Nat} (hr : l ∉ s.rel) (h0
     · exact present_reawait_other (hp l' hl'' e)
   · rename_i rest _
     have h' : FEx { s with script := upd s.script l rest } := ⟨h.exact, h.form⟩
+    have ha : await { s with script := upd s.script l rest } l = reawait { s with script := upd s.script l rest } l := by
+      unfold await; rw [if_pos hcn]
+    rw [ha]
     refine ⟨fex_reawait h' hr (fun e => absurd e h0), ?_⟩
     intro l' hl'
     have hl'' : l' < s.next := by unfold reawait at hl'; split at hl' <;> exact hl'
@@ -786,7 +985,7 @@ theorem finv_resume {s : State} (hi : Inv s) (h : FInv s) (l : Nat) : FInv (step
     next v hv =>
       have h0 : s.handles ≠ 0 := by
         intro h0; simp [readNow, h0] at hv
-      refine finv_afterValue (fex_resumed hi h.ex hl hv) (fun hh => ((hme l).mp hh).1 rfl) h0 ?_
+      refine finv_afterValue (fex_resumed hi h.ex hl hv) (fun hh => ((hme l).mp hh).1 rfl) h0 (hi.rel_conn _ hl) ?_
       intro l' hl' e
       exact present_resumed_other hi e _ (h.present l' hl')
     next hnv =>
@@ -881,6 +1080,8 @@ theorem finv_step {s : State} (hi : Inv s) (h : FInv s) (op : Op) (hf : needsFlu
   | listen sc => exact finv_listen hi h sc
   | listen0 sc => exact finv_listen0 hi h sc
   | connect n => exact finv_connect h n
+  | connect0 n => exact finv_connect0 hi h n
+  | assign l b => exact finv_assign h l b
   | emit r v => exact finv_emit hi h (hf rfl) r v
   | resume l => exact finv_resume hi h l
   | wake l => exact finv_wake hi h l
